@@ -14,6 +14,9 @@ RULE = ('search p_paths: every drawable family of the zoo (styled rectangle/circ
 
 def search(tier, rng):
     n = 8000 if tier == 'quick' else 150000
+    for c in axis_line_cases():
+        yield J('p_paths', -20, -20, 60, 60, c)
+        yield J('p_paths', 10, 9, 6, 6, c)
     for k in range(n):
         fam = FAMILIES[k % len(FAMILIES)]
         r = rng.random()
